@@ -445,4 +445,52 @@ def run(ctx):
                        "difference (the indentation) pushes a line over the terminal width the section is under-counted by a row and stale text stays" % (m.short, ", ".join(sorted(recorded))))
     if n10 == 0:
         r.fail(list(sec.methods.values())[0], sec.node, "no record loop", "no loop that counts rows and records lines found in SectionOutput")
+    # ---------------------------------------------------------------- R11
+    r = ctx.rule("C15-R11", "UNIT", "the content list holds (line, newline) pairs: a loop that counts terminal rows over (a slice of) the recorded content takes every second "
+                 "entry (`[::2]`) - a filter on the entries' text is not the same thing (a blank recorded line is a line and occupies a row)", reference=1)
+    n11 = 0
+    for name, m in sorted(sec.methods.items()):
+        # locals cut out of the content list
+        cuts = {t.id for n in walk_no_nested(m.node) if isinstance(n, ast.Assign) and isinstance(n.value, ast.Subscript) and is_self_attr(n.value.value) and n.value.value.attr in content_fields
+                for t in n.targets if isinstance(t, ast.Name)}
+        for comp in [n for n in ast.walk(m.node) if isinstance(n, (ast.GeneratorExp, ast.ListComp, ast.For))]:
+            gens = comp.generators if not isinstance(comp, ast.For) else [comp]
+            for g in gens:
+                it = g.iter
+                base = it.value if isinstance(it, ast.Subscript) else it
+                from_content = (isinstance(base, ast.Name) and base.id in cuts) or (is_self_attr(base) and base.attr in content_fields)
+                body = [comp.elt] if not isinstance(comp, ast.For) else comp.body
+                counts = any(isinstance(x, ast.Call) and ((isinstance(x.func, ast.Attribute) and x.func.attr == "_get_row_count") or _has_ceil(sec, x)) for b_ in body for x in ast.walk(b_))
+                if not (from_content and counts):
+                    continue
+                n11 += 1
+                step2 = isinstance(it, ast.Subscript) and isinstance(it.slice, ast.Slice) and isinstance(it.slice.step, ast.Constant) and it.slice.step.value == 2
+                filt = bool(getattr(g, "ifs", None))
+                if step2 and not filt:
+                    r.ok("%s: rows counted over %s" % (m.short, norm(it)))
+                else:
+                    r.fail(m, it, "rows counted over %s%s" % (norm(it), " with a filter" if filt else ""), "%s counts the rows of the removed lines over `%s`%s instead of every second entry of the recorded "
+                           "content: a blank line among them is skipped (or a newline entry counted) - the cursor moves up too few / too many rows and the row counter drifts" % (m.short, norm(it), " filtered by the text" if filt else ""))
+    if n11 == 0:
+        r.vacuous_ok = True
+
+    # ---------------------------------------------------------------- R12
+    r = ctx.rule("C15-R12", "KEY", "'rows' are rows of the terminal as it is now: the width a section measures with is read when it is needed - Terminal.width does not keep what the "
+                 "environment announced (COLUMNS) in the object", reference=1)
+    term = ctx.cls("clikit.utils.terminal.Terminal")
+    wm = term.methods.get("width")
+    ctx.require(wm is not None, "Terminal.width missing")
+    env_locals = {t.id for n in walk_no_nested(wm.node) if isinstance(n, ast.Assign) and any(isinstance(x, ast.Call) and norm(x.func) in ("os.getenv", "os.environ.get", "getenv") for x in ast.walk(n.value))
+                  for t in n.targets if isinstance(t, ast.Name)}
+    kept = [n for n in walk_no_nested(wm.node) if isinstance(n, ast.Assign) and any(is_self_attr(t) for t in n.targets)
+            and any((isinstance(x, ast.Name) and x.id in env_locals) or (isinstance(x, ast.Call) and norm(x.func) in ("os.getenv", "os.environ.get", "getenv")) for x in ast.walk(n.value))]
+    if kept:
+        r.fail(wm, kept[0], "COLUMNS kept in %s" % norm(kept[0].targets[0]), "Terminal.width stores the width announced by the environment in the object: a section (which keeps its Terminal) goes on "
+               "measuring with the first value - after the announced width changes wrapped lines get the wrong row count and clear() erases too little or too much")
+    elif env_locals or any(isinstance(x, ast.Call) and norm(x.func) in ("os.getenv", "os.environ.get") for x in ast.walk(wm.node)):
+        r.ok("Terminal.width reads COLUMNS on every call")
+    else:
+        r.vacuous_ok = True
+        r.note("Terminal.width does not consult the environment")
     return ctx.results
+
